@@ -12,7 +12,8 @@ namespace RDS
 
 /-- a character cell is well-formed -/
 def CellOk (cfg : Cfg) (c : Cell) : Prop :=
-  c.lvl ≤ 10 ∧ (c.lvl = 10 → c.ch = 0x20) ∧ (c.ch = 0 ∨ ∃ b, 0x20 ≤ b ∧ b < 256 ∧ conv cfg b = c.ch)
+  c.lvl ≤ 10 ∧ (c.lvl = 10 → c.ch = 0x20) ∧
+  (c.ch = 0 ∨ c.lvl = 10 ∨ ∃ b, 0x20 ≤ b ∧ b < 256 ∧ conv cfg b = c.ch)
 
 def TextOk (cfg : Cfg) (t : Text) : Prop := ∀ c ∈ t, CellOk cfg c
 
